@@ -324,6 +324,9 @@ func genSpec(rng *rand.Rand) runSpec {
 	s := runSpec{Seed: rng.Int63(), Shape: rng.Intn(6)}
 	s.M = []int{1, 2, 3, 5, 8, 20, 60, 200}[rng.Intn(8)]
 	s.N = []int{1, 2, 3, 4, 8, 64}[rng.Intn(6)]
+	if rng.Intn(40) == 0 {
+		s.N = []int{255, 256, 257, 300, 1000}[rng.Intn(5)] // far more runners than items: they must all go home
+	}
 	if rng.Intn(3) == 0 {
 		s.Items = 1 + rng.Intn(3)
 		s.NilItem = rng.Intn(s.M)
@@ -404,7 +407,7 @@ func main() {
 		return
 	}
 	vlib.Main("C09", "exploration", 15*time.Minute, func(r *vlib.Run) {
-		r.Rule("runs of Work.Do over deterministic item graphs (1-200 items; shapes: random fan-out with duplicates/self/back edges, chain, wide fan with back-edges, binary tree with duplicate adds, bursts, rendezvous fan: one call adds min(n,items)-1 items back to back and all these calls wait for each other, so a lost wake-up is a deadlock), 0-5 roots added before Do (with duplicates; one run in 25 adds nothing at all), n in {1,2,3,4,8,64}; items are ints, in a third of the runs strings, pointers (one of them a typed nil) or ints with one item being the nil interface value; f perturbs itself (Gosched / spin / sleep) at entry, between Adds and at exit; each batch runs in a child process, once in a non-race build (the runtime's deadlock detector is the termination oracle) and once in a race build (watchdog + goroutine-dump classification), GOMAXPROCS in {1,2,4,16}. Distinct non-trivial = distinct item start-order signatures observed.")
+		r.Rule("runs of Work.Do over deterministic item graphs (1-200 items; shapes: random fan-out with duplicates/self/back edges, chain, wide fan with back-edges, binary tree with duplicate adds, bursts, rendezvous fan: one call adds min(n,items)-1 items back to back and all these calls wait for each other, so a lost wake-up is a deadlock), 0-5 roots added before Do (with duplicates; one run in 25 adds nothing at all), n in {1,2,3,4,8,64} (one run in 40: 255, 256, 257, 300 or 1000); items are ints, in a third of the runs strings, pointers (one of them a typed nil) or ints with one item being the nil interface value; f perturbs itself (Gosched / spin / sleep) at entry, between Adds and at exit; each batch runs in a child process, once in a non-race build (the runtime's deadlock detector is the termination oracle) and once in a race build (watchdog + goroutine-dump classification), GOMAXPROCS in {1,2,4,16}. Distinct non-trivial = distinct item start-order signatures observed.")
 		r.Assume("interleavings are sampled, not enumerated (the statement's quantifier asks for a controlled scheduler, which is a different technique): a bug that needs one specific rare order can be missed")
 		base := vlib.Scratch()
 		build := os.Getenv("VERIF_BUILD")
